@@ -8,6 +8,7 @@ C25 driver.  Requests (fields separated by one space):
   touch <revs|-> <T|F> <views>        _filter_revisions_touching_path (modified revisions, include_merges)
   enclosing <revs|-> <T|F> <views>    the stack-free specification of the same (`enclosingExpected`)
   stepwise <views>                    do the depths go up by at most one per step (from depth 0 or 1)
+  wellnested <views>                  is the list a forest in pre-order (`wellNested`)
   linear <graph> <tip|~> <start|~> <stop|~> <excl T|F>
   graph <graph> <tip|~> <start|~> <stop|~> <rebase T|F> <excl T|F>
   calc <graph> <tip|~> <start|~> <stop|~> <r|f> <genMerge T|F> <delayed T|F> <excl T|F>
@@ -72,6 +73,10 @@ def handle : List String → String
     match parseNatList m, parseBool inc, parseViews vs with
     | some m, some inc, some l => showViews (enclosingExpected m inc l)
     | _, _, _ => "bad-op"
+  | ["wellnested", vs] =>
+    match parseViews vs with
+    | some l => showBool (wellNested l)
+    | none => "bad-op"
   | ["stepwise", vs] =>
     match parseViews vs with
     | some l => showBool (stepwise 1 l)
